@@ -62,7 +62,7 @@ func planFor(prop, tier string) plan {
 		}
 		return ops
 	}
-	p := plan{Configs: base, Seeds: []string{"init", "empty", "overlap", "gap", "ontick", "inccross"}}
+	p := plan{Configs: base, Seeds: []string{"init", "empty", "overlap", "gap", "ontick", "inccross", "netzero"}}
 	quick := tier != "thorough"
 	switch prop {
 	case "C07", "C01":
@@ -102,7 +102,7 @@ func planFor(prop, tier string) plan {
 	case "C08":
 		p.Alpha = Alphabet{Creates: creates(!quick), Adds: [][2]int64{{1000, 1000}}, Withdraws: [][2]int64{{1, 3}, {1, 1}},
 			SwapIn: []int64{999, 400000, 30000000}, SwapOut: []int64{250000}, Claims: true, Transfer: true, Incentive: true, Ticks: []int{0, 1, 2}, CrossSwaps: true, Match: true}
-		p.Seeds = []string{"init", "twins", "gap", "overlap", "ontick", "inccross", "young"}
+		p.Seeds = []string{"init", "twins", "gap", "overlap", "ontick", "inccross", "young", "netzero"}
 		if quick {
 			p.Depth, p.SeedDep = 3, 2
 			p.Configs = []Config{p.Configs[0], {TickSpacing: 1, SpreadFactor: "0.002", Scaled: false, First0: 1000000, First1: 5000000000, RangeUnit: 50}}
@@ -193,6 +193,14 @@ func seedOps(name string, cfg Config) []Op {
 			{K: "create", A: "A", R: 2, X: cfg.First0, Y: 0},
 			{K: "incentive", X: 1000000, Y: 10, D: 0}, {K: "incentive", X: 3700, Y: 1, D: 1}, {K: "incentive", X: 500000, Y: 3, D: 2},
 			{K: "swapin", D: 0, X: cfg.First0 / 50}, {K: "tick", D: 1}}
+	case "netzero":
+		// two positions meet at the tick the price starts on ([c0-2u, c0) and [c0, c0+u)) and hold EQUAL liquidity, so
+		// that tick is in use with net liquidity zero; fees and incentives have accrued on the upper side; the
+		// alphabet's walker-synthesised zero-for-one swaps cross the tick next
+		return []Op{first, {K: "create", A: "B", R: 1, X: cfg.First0, Y: cfg.First1}, {K: "create", A: "A", R: 5, X: cfg.First0, Y: cfg.First1},
+			{K: "equalize", P: 1, Q: 2},
+			{K: "incentive", X: 1000000, Y: 10, D: 0},
+			{K: "swapin", D: 1, X: cfg.First1 / 50}, {K: "tick", D: 1}}
 	case "young":
 		// incentives on all three uptimes are running and other liquidity is active; one more position is one second
 		// old: a collect or withdrawal of it now forfeits what it accrued under BOTH longer uptimes in a single call
